@@ -115,6 +115,7 @@ fn independent_fragment(uid: &str, frame: &[u8]) -> Vec<u8> {
 }
 
 fn main() {
+    img::keep_heap();
     let a = parse_args();
     quiet_panics();
     let tg = targets();
